@@ -10,9 +10,11 @@ configuration-dependent decisions are arbitrary functions of the endpoint's hist
 attackers (arbitrary strategies; at the handshake layer: arbitrary sequences of well-framed
 messages and ChangeCipherSpec signals fed to either endpoint).
 -/
-import Gotlcp.Lemmas.TranscriptInv
+import Gotlcp.Lemmas.TranscriptConn
 import Gotlcp.Spec.TamperSpec
 import Gotlcp.Generated.Facts
+import Gotlcp.Model.TranscriptFacts
+import Gotlcp.Model.TranscriptSym
 
 set_option linter.unusedSimpArgs false
 set_option linter.unusedVariables false
@@ -37,5 +39,81 @@ def FramedLogs (c s : HS P) : Prop := ∀ m, m ∈ msgsOf c.log ++ msgsOf s.log 
 
 /-- what an endpoint wrote and accepted, as the spec's `EndpointLog` -/
 def logOf (h : HS P) : EndpointLog Item := ⟨sentOf h.log, acceptedOf h.log⟩
+
+/-! ### the transcript hash is injective on message lists -/
+
+/-- 4-byte-header framing: a framed message determines its type, its body and what follows -/
+theorem C03_frame_injective {t t' : UInt8} {a a' r r' : Bytes} (ha : a.length < 16777216) (ha' : a'.length < 16777216)
+    (h : t :: (be24 a.length ++ a) ++ r = t' :: (be24 a'.length ++ a') ++ r') : t = t' ∧ a = a' ∧ r = r' :=
+  frame_injective ha ha' h
+
+/-- hence `H(m₁ ‖ … ‖ mₙ)` with `H` injective on byte strings is injective on lists of framed
+messages: the concatenation is uniquely parseable -/
+theorem C03_transcript_hash_injective (P : Prims) {a b : List Msg} (ha : ∀ m ∈ a, WellFramed m)
+    (hb : ∀ m ∈ b, WellFramed m) (h : hashT P a = hashT P b) : a = b :=
+  hashT_injective P ha hb h
+
+/-! ### both complete ⇒ same transcript -/
+
+/-- Handshake layer, any inputs: feed ANY sequences of well-framed messages and
+ChangeCipherSpec signals to a client machine and to a server machine.  If both reach `done`,
+then (under the symbolic laws and the secrecy assumption) what each accepted is, item for item
+and with the ChangeCipherSpec signals in the same places, what the other wrote. -/
+theorem C03_same_transcript_any_inputs (hk : k.ok = true) (hf : f.sound = true) {c s : HS P}
+    (hc : ReachR k f W .client c) (hs : ReachR k f W .server s)
+    (dc : c.ctl = .done) (ds : s.ctl = .done)
+    (hfr : FramedLogs c s) (hsm : SecretMaster k c s) :
+    SameTranscript (logOf c) (logOf s) ∧ c.ms = s.ms := by
+  have ne := codesNe hk
+  have shc : Shape k c := reach_shape W hk hf hc.reach
+  have shs : Shape k s := reach_shape W hk hf hs.reach
+  simp only [Shape, dc] at shc
+  simp only [Shape, ds] at shs
+  obtain ⟨hi, hm⟩ := done_agree ne shc shs hc.role hs.role hfr hsm
+  obtain ⟨Ac, sc, tc⟩ := shc
+  obtain ⟨As, ss, ts⟩ := shs
+  have cc : c.log = assign k true false 0 (itemsOf c.log) := by
+    have := tc.canon; rw [hc.role] at this; exact this
+  have cs : s.log = assign k false false 0 (itemsOf s.log) := by
+    have := ts.canon; rw [hs.role] at this; exact this
+  refine ⟨⟨?_, ?_⟩, hm⟩
+  · show acceptedOf c.log = sentOf s.log
+    rw [cc, cs, hi, ← accepted_client_eq_sent_server]
+  · show acceptedOf s.log = sentOf c.log
+    rw [cc, cs, hi, ← accepted_server_eq_sent_client]
+
+/-- The whole system, for ALL attacker strategies and any number of moves: two connections
+(record layer + handshake layer) and an attacker who decides every delivery from the honest
+outputs so far (drop, duplicate, reorder, alter, inject are all instances).  If both
+connections report completion, each accepted exactly the messages and ChangeCipherSpec signals
+the other sent. -/
+theorem C03_both_complete_same_transcript (hk : k.ok = true) (hf : f.sound = true) (att : Attacker) (n : Nat) :
+    let g := Global.run k f W att n (Global.init k W)
+    g.c.status = .done → g.s.status = .done →
+    FramedLogs g.c.hs g.s.hs → SecretMaster k g.c.hs g.s.hs →
+    SameTranscript (logOf g.c.hs) (logOf g.s.hs) := by
+  intro g dc ds hfr hsm
+  have ok := global_run_ok (k := k) (f := f) (W := W) att n _ global_init_ok
+  exact (C03_same_transcript_any_inputs hk hf ok.c.reach ok.s.reach (ok.c.done dc) (ok.s.done ds) hfr hsm).1
+
+/-! ### the facts the theorems rely on -/
+
+/-- The regenerated source facts: the nine handshake type codes are pairwise different bytes,
+and both stacks perform exactly the transcript operations the model assumes (ClientHello and
+ServerHello added by `transcriptMsg` in that order, every message of the full handshake
+written / read with the hash or added right after, Finished and CertificateVerify read with
+`nil` and added only after the check, Finished compared over its whole length); the stream
+stack keeps the record-layer guards (version compared only under `haveVers`, ChangeCipherSpec
+only when expected and with an empty handshake buffer, no handshake record while a
+ChangeCipherSpec is expected).  Nothing the extractor looks for is missing. -/
+theorem C03_facts :
+    tlcpCodes.ok = true ∧ dtlcpCodes.ok = true ∧
+    tlcpFlags.sound = true ∧ dtlcpFlags.sound = true ∧
+    tlcpFlags.recordStrict = true ∧
+    dtlcpFlags.versCheckedOnlyWhenHave = true ∧ dtlcpFlags.ccsNeedsExpect = true ∧
+    dtlcpFlags.hsRefusedWhenCCSExpected = true ∧
+    Facts.tlcp.trClientHandshake = ["W:hello:nil", "R:nil"] ∧
+    Facts.dtlcp.trClientHandshake = ["W:hello:nil", "R:nil"] ∧
+    Facts.missing = [] := by decide
 
 end Gotlcp.Props.C03
